@@ -21,7 +21,7 @@ REQUIRED = {"eval.post": 100, "spy.obj": 100, "boundary_events": 1000,
             "soc_evals": 1}
 MIN_NONTRIVIAL = {"quick": 20, "thorough": 100}
 PLAN = [("lattice", 700, 12000), ("soc", 500, 9000), ("faulty", 200, 3000),
-        ("narrow", 200, 3000)]
+        ("narrow", 200, 3000), ("cross", 300, 6000)]
 
 
 def cases(tier, seed):
@@ -72,7 +72,10 @@ def make_spec(case):
 
 
 def run_case(case):
-    spec = make_spec(case)
+    if case["fam"] == "cross":
+        spec, _src = e2e.cross_spec(ID, case)
+    else:
+        spec = make_spec(case)
     rec = mrun.run(spec)
     viols, info = oracles.o_c01(rec)
     kinds = info.get("kinds", [])
